@@ -648,6 +648,27 @@ class ExtMixin(object):
             return PyObjV(_Memo(args[0]))
         self.err(node, "functools.cache arguments")
 
+    def x_hash(self, args, kwargs, node, env):
+        """hash(x) for numbers and tuples of numbers is CPython's own deterministic value (hash(-1) == -2, hash(1.0) ==
+        hash(1), tuple hashes combine member hashes); for anything else an uninterpreted function of the value"""
+        if kwargs or len(args) != 1:
+            self.err(node, "hash arguments")
+
+        def concrete(v):
+            if isinstance(v, Num) and v.const() is not None:
+                c = v.const()
+                return int(c) if c.denominator == 1 else float(c)
+            if isinstance(v, ListV) and v.kind == "tuple" and not getattr(v, "tail", None):
+                return tuple(concrete(x) for x in v.items)
+            raise ValueError
+        try:
+            return Num(ep.const(hash(concrete(args[0]))))
+        except ValueError:
+            pass
+        if isinstance(args[0], (ListV, DictV)) and getattr(args[0], "kind", "dict") in ("list", "set", "dict"):
+            raise RaiseSignal(ExcV(ExtV("builtins.TypeError"), [Const("unhashable type")]), node)
+        return Num(ep.app(("hash", args[0].key()), []))
+
     def x_object(self, args, kwargs, node, env):
         if args or kwargs:
             self.err(node, "object() takes no arguments")
@@ -771,6 +792,7 @@ class ExtMixin(object):
                 raise RaiseSignal(ExcV(ExtV("io.UnsupportedOperation"), [Const("not writable")]), node)
             f.pieces.append(to_node(s))
             if f.is_file:
+                self.file_writes = self.__dict__.get("file_writes", 0) + 1
                 self.log_event(("write", f.name))
             return
         if isinstance(f, Phi):
